@@ -606,6 +606,13 @@ pub fn encode_fixed_size_frame(
         framebuf.filled_size(),
         1..
     )?;
+    // `encode_frame` reads one channel of `framebuf` per channel declared in
+    // `stream_info`, so the two must agree.
+    verify_true!(
+        "encode_fixed_size_frame (framebuf.channels)",
+        framebuf.channels() == stream_info.channels(),
+        "must be the number of channels declared in `stream_info`"
+    )?;
     framebuf.verify_samples(stream_info.bits_per_sample())?;
     // NOTE: From expected use cases, wrapping `stream_info` is not practical
     // since it is mutable everywhere. On the other hand, verifying it here is
